@@ -55,6 +55,13 @@ func checkGateManufacture(p *Program, r *Report, rule string, gates map[*types.T
 					}
 					n++
 					a := c.Common().Args[idx]
+					for {
+						if ct, ok := a.(*ssa.ChangeType); ok {
+							a = ct.X
+							continue
+						}
+						break
+					}
 					var h *ssa.Function
 					switch y := a.(type) {
 					case *ssa.Function:
@@ -64,6 +71,9 @@ func checkGateManufacture(p *Program, r *Report, rule string, gates map[*types.T
 					case *ssa.Call:
 						// a reader made by a function of the module
 						h = staticCallee(y.Common())
+					}
+					if h != nil && h.Pkg == nil && h.Parent() == nil && h.Object() != nil && h.Object().Pkg() != nil && strings.HasPrefix(h.Object().Pkg().Path(), modulePath) {
+						continue // a method value of a type of the module
 					}
 					if h == nil || h.Pkg == nil && h.Parent() == nil {
 						return false, "a caller passes a reader that is not a function of the module: " + p.Pos(c.Pos())
@@ -80,6 +90,7 @@ func checkGateManufacture(p *Program, r *Report, rule string, gates map[*types.T
 		}
 		return n > 0, "no caller found"
 	}
+	activeParams := map[*ssa.Parameter]bool{}
 	var classify func(v ssa.Value, fn *ssa.Function, depth int) (bool, string)
 	classify = func(v ssa.Value, fn *ssa.Function, depth int) (bool, string) {
 		if depth > 6 {
@@ -95,6 +106,36 @@ func checkGateManufacture(p *Program, r *Report, rule string, gates map[*types.T
 		case *ssa.Parameter:
 			if isGateType(x.Type(), gates) {
 				return true, "gate-typed parameter"
+			}
+			// a parameter of an unexported function: what every caller in the module passes
+			pf := x.Parent()
+			if pf != nil && (pf.Object() == nil || !pf.Object().Exported()) && !activeParams[x] {
+				activeParams[x] = true
+				defer delete(activeParams, x)
+				idx := -1
+				for i, q := range pf.Params {
+					if q == x {
+						idx = i
+					}
+				}
+				n := 0
+				for _, g := range p.SrcFuncs() {
+					for _, b := range g.Blocks {
+						for _, in := range b.Instrs {
+							c, ok := in.(ssa.CallInstruction)
+							if !ok || staticCallee(c.Common()) != pf || idx >= len(c.Common().Args) {
+								continue
+							}
+							n++
+							if ok, why := classify(c.Common().Args[idx], g, depth+1); !ok {
+								return false, "passed to " + fnName(pf) + " at " + p.Pos(c.Pos()) + ": " + why
+							}
+						}
+					}
+				}
+				if n > 0 && !addressTaken(p, pf) {
+					return true, "every caller of the unexported " + pf.Name() + " passes permitted text"
+				}
 			}
 			return false, "parameter " + x.Name() + " of type " + types.TypeString(x.Type(), shortQual)
 		case *ssa.Extract:
@@ -169,4 +210,55 @@ func checkGateManufacture(p *Program, r *Report, rule string, gates map[*types.T
 		}
 	}
 	r.Analysed["gate_conversions"] = n
+	// the sinks: text handed to text/template's parser anywhere in package template
+	ns := 0
+	for _, fn := range p.SrcFuncs() {
+		root := fn
+		for root.Parent() != nil {
+			root = root.Parent()
+		}
+		if root.Pkg == nil || root.Pkg.Pkg.Path() != modulePath+"/template" {
+			continue
+		}
+		for _, b := range fn.Blocks {
+			for _, in := range b.Instrs {
+				c, ok := in.(ssa.CallInstruction)
+				if !ok {
+					continue
+				}
+				g := staticCallee(c.Common())
+				if g == nil || fnName(g) != "(*text/template.Template).Parse" || len(c.Common().Args) < 2 {
+					continue
+				}
+				ns++
+				ok2, why := classify(c.Common().Args[1], fn, 0)
+				cn := strings.TrimPrefix(fnName(fn), modulePath+"/") + "#parses-text"
+				r.Check(ok2, rule, cn, p.Pos(in.Pos()), "text handed to the parser: "+why, "run-time text reaches text/template's parser: "+why)
+			}
+		}
+	}
+	r.Analysed["parser_sinks"] = ns
+	if n+ns == 0 {
+		r.Undec(rule, "template#template-text", "", "neither a conversion to the gate type nor a call of text/template's parser was found")
+	}
+}
+
+// addressTaken: fn is used as a value somewhere in the module (then its callers are not all known).
+func addressTaken(p *Program, fn *ssa.Function) bool {
+	for _, g := range p.SrcFuncs() {
+		for _, b := range g.Blocks {
+			for _, in := range b.Instrs {
+				for _, op := range in.Operands(nil) {
+					if *op != ssa.Value(fn) {
+						continue
+					}
+					if c, ok := in.(ssa.CallInstruction); ok && c.Common().Value == ssa.Value(fn) {
+						continue
+					}
+					return true
+				}
+			}
+		}
+	}
+	return false
 }
